@@ -65,6 +65,7 @@ type FuncExec struct {
 	edgeOut map[[2]int]incoming
 	returns []retRec
 	captured map[ssa.Value]bool
+	capturedAt map[ssa.Value][]*ssa.MakeClosure // where the closures that write the cell are created
 	callOrd map[string]int
 	unlockOrd int
 	lockOrd int
@@ -725,11 +726,48 @@ func (fx *FuncExec) findCaptured() {
 					// a captured variable can only change behind our back if some closure writes it
 					if i < len(cf.FreeVars) && freeVarWritten(cf.FreeVars[i], 0) {
 						fx.captured[bv] = true
+						if fx.capturedAt == nil {
+							fx.capturedAt = map[ssa.Value][]*ssa.MakeClosure{}
+						}
+						fx.capturedAt[bv] = append(fx.capturedAt[bv], mc)
 					}
 				}
 			}
 		}
 	}
+}
+
+// mayFollow: can instruction in execute after the closure mc was created? (same block later, or a block
+// reachable from mc's block). Before that no callee can hold the closure, so it cannot write the cell.
+func (fx *FuncExec) mayFollow(mc *ssa.MakeClosure, in ssa.Instruction) bool {
+	if in == nil || in.Block() == nil {
+		return true
+	}
+	if in.Block() == mc.Block() {
+		for _, x := range mc.Block().Instrs {
+			if x == ssa.Instruction(mc) {
+				return true // mc comes first
+			}
+			if x == in {
+				break
+			}
+		}
+	}
+	seen := map[*ssa.BasicBlock]bool{}
+	work := append([]*ssa.BasicBlock{}, mc.Block().Succs...)
+	for len(work) > 0 {
+		b := work[len(work)-1]
+		work = work[:len(work)-1]
+		if seen[b] {
+			continue
+		}
+		seen[b] = true
+		if b == in.Block() {
+			return true
+		}
+		work = append(work, b.Succs...)
+	}
+	return false
 }
 
 // allocKind decides how a local is represented.
